@@ -582,10 +582,10 @@ impl ser::SerializeStruct for SerializeTimestamp {
     }
 
     fn end(self) -> std::result::Result<Self::Ok, Self::Error> {
-        Ok(chrono::Duration::seconds(self.secs)
-            .checked_add(&chrono::Duration::nanoseconds(self.nanos.into()))
-            .unwrap()
-            .into())
+        chrono::Duration::try_seconds(self.secs)
+            .and_then(|secs| secs.checked_add(&chrono::Duration::nanoseconds(self.nanos.into())))
+            .map(Value::from)
+            .ok_or_else(|| SerializationError::SerdeError("duration out of range".to_owned()))
     }
 }
 
